@@ -133,6 +133,25 @@ def _from_current_exception(fn, aid, depth=0):
     return False
 
 
+def _must_elems(fb, f, is_target, depth=3, memo=None):
+    """elements of f that are calls satisfying is_target(fn, node), or calls to library functions that execute such a call
+    on every normal path (a private helper is treated as if its body were inlined)."""
+    memo = {} if memo is None else memo
+    out = set()
+    for n in f.all_nodes():
+        if n.get('k') != 'call' or 'q' not in n:
+            continue
+        hit = bool(is_target(f, n))
+        if not hit and depth > 0 and n.get('u') and n['q'].startswith('osmium::') and not n.get('virt'):
+            gs = [g for g in fb.by_usr.get(n['u'], []) if g.has_cfg]
+            hit = bool(gs) and all(must_call(fb, g, is_target, depth - 1, memo) is None for g in gs)
+        if hit:
+            e = elem_of(f, n['id'])
+            if e is not None:
+                out.add(e)
+    return out
+
+
 def _dedupe(fns):
     seen = set()
     out = []
@@ -248,71 +267,98 @@ def fn_field(fn, nid):
     return r[2] if r is not None and r[0] == 'field' else None
 
 
+def _is_eod(fn, n):
+    return n.get('q') == EODQ
+
+
 def rule_stage_forwarding(fb, R, chains):
-    """Stage functions of the reader side: functions on a reader-side thread that terminate their outgoing queue with the
-    end-of-data marker or contain a try block.  Every handler of such a function must forward."""
+    """Stage functions of the reader side: functions on a reader-side thread that contain a try block.  After each of them
+    -- on its normal paths and on every path through each of its handlers -- the end-of-data marker must be pushed, by
+    the function itself (directly or through a helper) or by every caller in the chain after the call returns; every
+    handler must forward the exception first."""
     n = 0
-    for (f, starter) in chains:
-        if starter not in READER_SIDE:
-            continue            # writer side: C08
-        eods = _calls(f, q=EODQ)
-        if not eods and not f.tries:
+    reader_chain = [f for (f, starter) in chains if starter in READER_SIDE]
+
+    def is_fwd(fn, c):
+        if c.get('q') != ADDQ or len(c.get('args', [])) < 2:
+            return False
+        g = fb.by_usr.get(c.get('u'), [])
+        return bool(g and len(g[0].params) > 1 and 'exception_ptr' in g[0].params[1]['tC'])
+
+    def eod_follows(f, start_block, eod_el):
+        """None if the end-of-data push is certain from start_block on: in f, or in every chain caller after f returns."""
+        w = must_pass(f, start_block, eod_el) if eod_el else ['no end-of-data push in ' + f.q]
+        if w is None:
+            return None
+        callers = []
+        for g in reader_chain:
+            for c in g.all_nodes():
+                if c.get('k') == 'call' and c.get('u') and not c.get('virt') and any(x is f for x in fb.by_usr.get(c['u'], [])):
+                    callers.append((g, c))
+        if not callers:
+            return w
+        for (g, c) in callers:
+            ge = _must_elems(fb, g, _is_eod)
+            w2 = path_search(g, elem_of(g, c['id']), _exit_t, lambda e, ge=ge, g=g: e in ge or (g.nodes.get(e) or {}).get('k') == 'throw')
+            if w2 is not None:
+                return w
+        return None
+
+    for f in reader_chain:
+        if not f.tries:
             continue
         n += 1
-        eod_el = {elem_of(f, c['id']) for c in eods}
+        eods = _calls(f, q=EODQ)
+        eod_el = _must_elems(fb, f, _is_eod)
         outq = f.root_var(eods[0]['args'][0]) if eods and eods[0].get('args') else None
         same_q = all(c.get('args') and f.root_var(c['args'][0]) == outq for c in eods)
         handlers = [(t, h) for t in f.tries for h in t['handlers']]
         setters = _exception_setters(fb, f.cls) if f.cls else []
         sq = {s.q for s in setters}
         # --- end of data on the normal paths
-        wn = must_pass(f, f.entry, eod_el) if eods else ['no end-of-data push in ' + f.q]
-        R.check(bool(eods) and same_q and outq is not None and wn is None, 'E2-end-of-data-on-all-paths', f.q + '#end-of-data', f.site,
-                '%s must push the end-of-data marker to its outgoing queue on every normal path, else the consumer waits forever (%s)'
+        wn = eod_follows(f, f.entry, eod_el)
+        R.check(same_q and wn is None, 'E2-end-of-data-on-all-paths', f.q + '#end-of-data', f.site,
+                'after %s the end-of-data marker must be pushed to the outgoing queue on every normal path, else the consumer waits forever (%s)'
                 % (f.q, _dp(f, wn) or 'different queues'))
-        if not handlers:
-            R.bad('E2-catch-all-forwards-exception', f.q + '#forward-to-queue', f.site,
-                  '%s terminates its outgoing queue but has no exception handler that could forward a failure' % f.q)
-            continue
         for (t, h) in handlers:
             hb = handler_entry_block(f, h)
             if hb is None:
                 R.broken('%s: cannot locate the CFG block of the handler at line %s' % (f.q, h.get('l')))
                 continue
             # --- end of data on the handler paths
-            wh = must_pass(f, hb, eod_el) if eods else ['no end-of-data push in ' + f.q]
+            wh = eod_follows(f, hb, eod_el)
             R.check(wh is None, 'E2-end-of-data-on-all-paths', f.q + '#end-of-data', f.site,
-                    '%s must push the end-of-data marker on every path through its exception handler, else the consumer waits forever '
-                    'after a failure (%s)' % (f.q, _dp(f, wh)))
+                    'the end-of-data marker must be pushed on every path through the exception handler of %s, else the consumer waits '
+                    'forever after a failure (%s)' % (f.q, _dp(f, wh)))
             # --- exception forwarded to the same queue, before the end-of-data marker
-            fwd = []
-            for c in _calls(f, q=ADDQ):
-                if not _in_handler(h, c) or len(c.get('args', [])) < 2:
+            fwd_el = set()
+            for e in _must_elems(fb, f, is_fwd):
+                c = f.nodes[e]
+                if not _in_handler(h, c):
                     continue
-                g = fb.by_usr.get(c.get('u'), [])
-                if not (g and len(g[0].params) > 1 and 'exception_ptr' in g[0].params[1]['tC']):
-                    continue
-                if outq is not None and f.root_var(c['args'][0]) != outq:
-                    continue
-                if not _from_current_exception(f, c['args'][1]):
-                    continue
-                fwd.append(c)
-            fwd_el = {elem_of(f, c['id']) for c in fwd}
+                if c.get('q') == ADDQ:
+                    if outq is not None and f.root_var(c['args'][0]) != outq:
+                        continue
+                    if not _from_current_exception(f, c['args'][1]):
+                        continue
+                fwd_el.add(e)
             w = path_search(f, hb, lambda e: _exit_t(e) or e in eod_el, lambda e: e in fwd_el, from_block_start=True)
-            R.check(bool(fwd) and w is None, 'E2-catch-all-forwards-exception', f.q + '#forward-to-queue', f.loc(fwd[0]['id']) if fwd else f.site,
+            R.check(bool(fwd_el) and w is None, 'E2-catch-all-forwards-exception', f.q + '#forward-to-queue', f.loc(min(fwd_el)) if fwd_el else f.site,
                     'the exception handler of %s must enqueue std::current_exception() on its outgoing queue on every path, before the '
                     'end-of-data marker (otherwise the failure is lost and the caller sees a clean end of file): %s' % (f.q, _dp(f, w) or 'no such call'))
             # --- header promise
             if sq:
-                sc = [c for c in f.all_nodes() if c.get('k') == 'call' and c.get('q') in sq and _in_handler(h, c)
-                      and c.get('args') and _from_current_exception(f, c['args'][0])]
-                sc_el = {elem_of(f, c['id']) for c in sc}
+                sc_el = set()
+                for e in _must_elems(fb, f, lambda fn, c: c.get('q') in sq):
+                    c = f.nodes[e]
+                    if _in_handler(h, c) and (c.get('q') not in sq or (c.get('args') and _from_current_exception(f, c['args'][0]))):
+                        sc_el.add(e)
                 w = path_search(f, hb, _exit_t, lambda e: e in sc_el, from_block_start=True)
-                R.check(bool(sc) and w is None, 'E2-catch-all-forwards-exception', f.q + '#header-exception', f.loc(sc[0]['id']) if sc else f.site,
+                R.check(bool(sc_el) and w is None, 'E2-catch-all-forwards-exception', f.q + '#header-exception', f.loc(min(sc_el)) if sc_el else f.site,
                         'the exception handler of %s must fulfil the header promise with std::current_exception() (via %s) on every path, '
                         'otherwise Reader::header() reports broken_promise instead of the real error' % (f.q, ', '.join(sorted(sq))))
     if n == 0:
-        R.broken('no reader-side stage function found (run_in_thread / Parser::parse)')
+        R.broken('no reader-side stage function (a function with a try block on a reader thread) found')
 
 
 # ------------------------------------------------------------------------------------------------ H1 / H2
@@ -652,22 +698,55 @@ def _join_discipline(fb, R, g):
                 '%s must raise the stop flag before joining, otherwise the read thread reads the whole input first' % g.q)
 
 
+def _flag_loop_guarded(f, nid):
+    """element nid of f executes only inside a loop, after a test of an atomic<bool> member came out false."""
+    if not [l for l in f.loops if f.in_range(nid, l['b'], l['e'])]:
+        return False
+    for (cn, sense, _b) in guards_of(f, nid):
+        x = f.sn(cn)
+        if (not sense) and x is not None and x.get('k') == 'call' and x.get('q', '').startswith(('std::atomic', 'std::__atomic_base')) \
+                and x.get('recv') is not None and fn_field(f, x['recv']):
+            return True
+    return False
+
+
 def rule_read_loop(fb, R):
+    """Every Decompressor::read() executed on the read thread -- in the thread function or in a helper of the same class --
+    is preceded, in every iteration, by the stop-flag test: guarded where it stands, or every call of the helper is."""
+    entries = _dedupe([e for s in thread_starts(fb) if s['fn'].cls == RTM for e in s['entries']])
+    if not entries:
+        R.broken('%s: thread entry not found' % RTM)
+        return
     n = 0
-    for f in _dedupe(fb.fns(RTM + '::run_in_thread')):
-        for c in _calls(f, q='osmium::io::Decompressor::read'):
-            n += 1
-            inloop = [l for l in f.loops if f.in_range(c['id'], l['b'], l['e'])]
-            flagged = False
-            for (cn, sense, _b) in guards_of(f, c['id']):
-                x = f.sn(cn)
-                if (not sense) and x is not None and x.get('k') == 'call' and x.get('q', '').startswith(('std::atomic', 'std::__atomic_base')) \
-                        and x.get('recv') is not None and fn_field(f, x['recv']):
-                    flagged = True
-            R.check(bool(inloop) and flagged, 'S3-read-loop-tests-stop-flag', f.q + '#loop-tests-stop-flag', f.loc(c['id']),
-                    'every Decompressor::read() in the read thread must be guarded by the loop test of the stop flag (a closed Reader reads nothing more)')
+    for entry in entries:
+        fns = [entry]
+        seen = {id(entry)}
+        callers = {}
+        i = 0
+        while i < len(fns):
+            f = fns[i]
+            i += 1
+            for c in f.all_nodes():
+                if c.get('k') == 'call' and c.get('u') and c.get('rcls') == entry.cls and not c.get('virt'):
+                    for g in fb.by_usr.get(c['u'], []):
+                        if g.has_cfg:
+                            callers.setdefault(id(g), []).append((f, c))
+                            if id(g) not in seen:
+                                seen.add(id(g))
+                                fns.append(g)
+
+        def guarded(f, nid, depth=0):
+            if _flag_loop_guarded(f, nid):
+                return True
+            cs = callers.get(id(f), [])
+            return bool(cs) and depth < 4 and all(guarded(g, c['id'], depth + 1) for (g, c) in cs)
+        for f in fns:
+            for c in _calls(f, q='osmium::io::Decompressor::read'):
+                n += 1
+                R.check(guarded(f, c['id']), 'S3-read-loop-tests-stop-flag', entry.q + '#loop-tests-stop-flag', f.loc(c['id']),
+                        'every Decompressor::read() in the read thread must be guarded by the loop test of the stop flag (a closed Reader reads nothing more)')
     if n == 0:
-        R.broken('run_in_thread: no Decompressor::read call found')
+        R.broken('%s: no Decompressor::read call found on the read thread' % RTM)
 
 
 # ------------------------------------------------------------------------------------------------ S4 / F1: parsers that read the descriptor themselves
@@ -1033,7 +1112,8 @@ def run(ctx):
         fb = ctx.facts(['io_read', 'io_write', 'thread'], cfg)
         all_rules(fb, R, ctx.facts(['thread'], cfg))
     # floors: instances confirmed by reading the tree
-    R.expect('E1-thread-entry-no-leak', 10)          # 4 entries + read, close | run | pop, write, close
+    R.expect('E1-thread-entry-no-leak', 7)           # 10 today (4 entries + read, close | run | pop, write, close); 7 = the entries
+                                                     # plus one guarded work call per stage, which survives extract-helper refactorings
     R.expect('E2-end-of-data-on-all-paths', 2)       # run_in_thread, Parser::parse
     R.expect('E2-catch-all-forwards-exception', 3)   # both stages + header promise in parse
     R.expect('H1-header-promise-guarded', 2)         # set_header_value, set_header_exception
